@@ -414,7 +414,7 @@ pub fn cases(ctx: &Ctx) -> Vec<Case> {
             p.nrecip = 3;
             progs.push(p);
         }
-        let samples = if ctx.quick() { 300 } else { 12000 };
+        let samples = if ctx.quick() { 1500 } else { 30000 };
         for p in &progs {
             let nseg = if ctx.quick() { 8 } else { 48 };
             for s in 0..nseg {
